@@ -170,9 +170,9 @@ def r2_classifier_agreement(ctx):
                 if l.detail["variant"] == "Ok":
                     for x in tr.origins(wb, l.detail["ops"][0]):
                         if x.kind == "agg":
-                            kinds[p.bb] = x.detail["variant"]
+                            kinds[(p.bb, x.detail["variant"])] = x.detail["variant"]
                 elif l.detail["variant"] == "Err":
-                    kinds[p.bb] = "Err"
+                    kinds[(p.bb, "Err")] = "Err"
     R.check(sorted(kinds.values()) == ["Call", "Err", "Notification"], "C02.R2", "element:entry-kinds", "each entry becomes exactly one of Call / Notification / Err", "batch entries are pushed as %s" % sorted(kinds.values()), "%s:%d" % (b.file, b.lo))
     w = {bb: 1 for bb in kinds}
     nx = None
